@@ -249,6 +249,7 @@ impl C18World {
                 if talloc::live_count() != live_before {
                     self.bad(&case, "allocation-left-behind", format!("{} allocation(s) left after Config::build failed", talloc::live_count() as i64 - live_before as i64));
                 }
+                self.check_unmaps(&case, ev_before);
                 if setup_res >= 0 {
                     let closed = mapwatch::events()[ev_before..].iter().any(|e| matches!(e, MapEvent::CloseRing { fd, .. } if *fd == setup_res));
                     if !closed {
@@ -337,7 +338,20 @@ impl C18World {
                 if mapwatch::mappings().len() != maps_before {
                     self.bad(&case, "mapping-left-behind", "ring mappings left after dropping the Ring".into());
                 }
+                self.check_unmaps(&case, ev_before);
                 talloc::track(|| drop(other));
+            }
+        }
+    }
+}
+
+impl C18World {
+    /// Every munmap since `ev_before` covers exactly the mapping it hits (a shorter length leaves pages
+    /// of the ring mapped, and with them the kernel side of the ring).
+    fn check_unmaps(&mut self, case: &Case, ev_before: usize) {
+        for e in mapwatch::events()[ev_before..].iter() {
+            if let MapEvent::Munmap { exact: false, addr, len, .. } = e {
+                self.bad(case, "mapping-left-behind/partial-unmap", format!("munmap({addr:#x}, {len}) does not cover the ring mapping it hits exactly"));
             }
         }
     }
@@ -393,7 +407,8 @@ pub fn cases(quick: bool) -> Vec<Case> {
     let mut confs = Vec::new();
     let sqs: &[(u32, bool)] = &[(0, false), (1, false), (2, false), (3, false), (32, false), (0, true)];
     for &(sq, max_size) in sqs {
-        for cq in [None, Some(1u32), Some(2 * sq.max(1)), Some(64)] {
+        // (256 and 1024 completion entries: from there on the entries alone fill whole pages.)
+        for cq in [None, Some(1u32), Some(2 * sq.max(1)), Some(64), Some(256), Some(1024)] {
             for kt in [0u8, 1, 2, 3] {
                 // 0: no kernel thread, 1: kernel thread, 2: +affinity, 3: +idle timeout
                 for si in [0u8, 1, 2] {
